@@ -123,8 +123,10 @@ struct ibh_rec { size_t ret; uint16_t arg; size_t calls; } G_ibh;
 #define G_ibh_ret G_ibh.ret
 #define G_ibh_arg G_ibh.arg
 #define G_ibh_calls G_ibh.calls
+bool G_ibh_valid_only;   /* ghost: set by a caller that only passes handles already validated against the same (constant) table */
 size_t index_by_handle(uint16_t handle)
 __CPROVER_requires(TABLE_OK)
+__CPROVER_ensures(G_ibh_valid_only ==> __CPROVER_return_value < G_N)
 __CPROVER_ensures((__CPROVER_return_value == invalid_attribute_index || __CPROVER_return_value < G_N) && G_ibh_ret == __CPROVER_return_value && G_ibh_arg == handle && G_ibh_calls == __CPROVER_old(G_ibh_calls) + 1)
 __CPROVER_assigns(G_ibh);
 /* attribute_at( index ).access( args, index ): any access function of the data base (ACCESS contract: C06 / C09 prove it for the
